@@ -42,10 +42,12 @@ type c02Case struct {
 	// NetCut: websocket / webtransport: every frame reaches the server in two pieces, the first of this many
 	// bytes (0 = in one piece): the boundary may fall inside the frame header
 	NetCut int
+	// Chunk: polling / jsonp: data requests without a declared length, the body arriving in pieces of this size
+	Chunk int
 }
 
 func (c c02Case) String() string {
-	return fmt.Sprintf("{%s rev%d b64=%v v3binary=%v pkts=%s split=%v frags=%v wtform=%d tail=%s tight=%v netcut=%d}", c.Carrier, c.Rev, c.B64, c.V3Binary, pktsString(c.Pkts), c.Split, c.Frags, c.WTForm, c.Tail, c.Tight, c.NetCut)
+	return fmt.Sprintf("{%s rev%d b64=%v v3binary=%v pkts=%s split=%v frags=%v wtform=%d tail=%s tight=%v netcut=%d chunk=%d}", c.Carrier, c.Rev, c.B64, c.V3Binary, pktsString(c.Pkts), c.Split, c.Frags, c.WTForm, c.Tail, c.Tight, c.NetCut, c.Chunk)
 }
 
 var c02Texts = []string{"", "a", "hello", "4", "0", "2probe", "5:4abc", "1:2", "12:", "b4aGVsbG8=", "bQUJD", "ünï", "😀", "a😀b€c", "日本語テキスト", "with\nnewline", "back\\slash", "\\n", "\\\\n", "quote\"'", "a:b:c", "%41+%2B&d=x", "\t\r", "{\"k\":[1,2]}", "  ", "</script>"}
@@ -151,6 +153,9 @@ func genC02(rt *rapid.T, knownScanner bool, col *Collector) c02Case {
 	if c.Carrier == "webtransport" || c.Carrier == "websocket" {
 		c.NetCut = rapid.SampledFrom([]int{0, 0, 0, 1, 2, 3, 4, 5, 7, 8, 9, 10, 13}).Draw(rt, "netcut")
 	}
+	if (c.Carrier == "polling" || c.Carrier == "jsonp") && rapid.IntRange(0, 2).Draw(rt, "chunked") == 0 {
+		c.Chunk = rapid.SampledFrom([]int{1, 3, 100, 4096, 70000}).Draw(rt, "chunk")
+	}
 	c.Tight = rapid.IntRange(0, 2).Draw(rt, "tightLimit") == 0
 	c.Tail = rapid.SampledFrom([]string{"none", "none", "afterClose", "candidate", "cutUpload", "cutUpload"}).Draw(rt, "tail")
 	c.CutAt = rapid.IntRange(1, 60).Draw(rt, "cutAt")
@@ -211,7 +216,7 @@ func runC02(c c02Case) (fail string, stats map[string]bool) {
 	if c.Rev == 3 {
 		eio = "3"
 	}
-	s, why := doHandshake(w, c06HS{Carrier: c.Carrier, EIO: eio, B64: c.B64, J: "3"})
+	s, why := doHandshake(w, c06HS{Carrier: c.Carrier, EIO: eio, B64: c.B64, J: "3", Chunk: c.Chunk})
 	if s == nil {
 		return "harness: handshake: " + why, stats
 	}
@@ -364,6 +369,9 @@ func runC02(c c02Case) (fail string, stats map[string]bool) {
 		stats["close-not-last"] = true
 	}
 	stats[fmt.Sprintf("carrier.%s.rev%d", c.Carrier, c.Rev)] = true
+	if c.Chunk > 0 {
+		stats["data-requests-without-declared-length"] = true
+	}
 	if c.V3Binary {
 		stats["v3-binary-payload"] = true
 	}
@@ -532,7 +540,7 @@ func TestC02Inbound(t *testing.T) {
 		}
 	})
 	req := []string{"carrier.polling.rev4", "carrier.polling.rev3", "carrier.jsonp.rev4", "carrier.jsonp.rev3", "carrier.websocket.rev4", "carrier.websocket.rev3", "carrier.webtransport.rev4", "v3-binary-payload", "multi-packet-payload", "non-ascii-text", "binary", "empty-data", "close-not-last", "post-after-close", "candidate-traffic", "traffic-after-close", "fragmented-frames", "non-minimal-length-form", ">=64KiB", "tight-limit"}
-	req = append(req, "connection-died-inside-a-payload", "frame-header-split-in-transit")
+	req = append(req, "connection-died-inside-a-payload", "frame-header-split-in-transit", "data-requests-without-declared-length")
 	col.RequireClasses(t, req...)
 }
 
